@@ -128,12 +128,14 @@ class StmtMixin:
             yield s, NORMAL
 
     def run_ghost(self, st, site, extra=None):
-        fr = st.frame
-        if fr.spec is None or st.cur != self.top_frame:
+        spec = self.top_spec
+        if spec is None or not spec.ghost_at:
             return
-        h = fr.spec.ghost_at.get(site)
+        key = site if st.cur == self.top_frame else f"{st.frame.label}:{site}"
+        h = spec.ghost_at.get(key)
         if h is None:
             return
+        self.ghost_sites_hit.add(key)
         L = self.local_ctx(st, extra)
         h(L)
 
@@ -144,6 +146,14 @@ class StmtMixin:
             for k, v in st.frames[fid].env.items():
                 names.setdefault(k, v)
             fid = st.frames[fid].parent
+        # ghost variables live in the frame of the function under verification
+        if self.top_spec is not None and self.top_frame in st.frames:
+            tenv = st.frames[self.top_frame].env
+            for g in self.top_spec.ghost:
+                if g in tenv:
+                    names[g] = tenv[g]
+            if '@out' in tenv:
+                names.setdefault('@out', tenv['@out'])
         ex = {}
         if '@out' in names:
             ex['out'] = view(self, st, names['@out'])
@@ -155,14 +165,9 @@ class StmtMixin:
         return Ctx(self, st, names, ex)
 
     def ghost_set(self, st, name, value):
+        env = st.frames[self.top_frame].env if (self.top_spec is not None and name in self.top_spec.ghost
+                                                and self.top_frame in st.frames) else st.frame.env
         if not isinstance(value, V):
-            old = st.frame.env.get(name)
-            if isinstance(old, VListRef):
-                l = st.lists[old.lid]
-                if isinstance(value, VList):
-                    st.lists[old.lid] = value
-                    return
-                raise Unsupported("ghost list assignment needs a VList")
             if z3.is_bool(value):
                 value = VBool(value)
             elif z3.is_int(value):
@@ -173,7 +178,13 @@ class StmtMixin:
                 value = VInt(z3.IntVal(value))
             else:
                 raise Unsupported("ghost value")
-        st.frame.env[name] = value
+        old = env.get(name)
+        if isinstance(old, VListRef) and isinstance(value, VList):
+            st.lists[old.lid] = value
+            return
+        if isinstance(value, VList):
+            value = st.new_list(value)
+        env[name] = value
 
     def ex_Assign(self, node, st):
         for s, v in self.ev(node.value, st):
@@ -321,11 +332,11 @@ class StmtMixin:
             yield from self.exec_block(node.orelse, s0)
             return
         s1 = s0.fork()
-        s1.assume(t)
+        s1.assume_branch(t)
         narrowed = self.narrow(s1, node.test, True)
         if self.feasible(s1):
             yield from self.exec_block(node.body, s1)
-        s0.assume(z3.Not(t))
+        s0.assume_branch(z3.Not(t))
         self.narrow(s0, node.test, False)
         if self.feasible(s0):
             yield from self.exec_block(node.orelse, s0)
